@@ -669,6 +669,12 @@ bool Interpret::getAssignment() const {
 }
 
 namespace { // Helper for get-value command
+// The lexer strips the bars of a quoted symbol; they have to be put back when the symbol is echoed
+void printAstSymbol(ASTNode const & symbolNode) {
+    bool const quoted = symbolNode.getType() == QSYM_T;
+    std::cout << (quoted ? "|" : "") << symbolNode.getValue() << (quoted ? "|" : "");
+}
+
 void printAstTermNode(ASTNode const & astNode) {
     ASTType t = astNode.getType();
     if (t == TERM_T) {
@@ -676,14 +682,14 @@ void printAstTermNode(ASTNode const & astNode) {
         std::cout << name;
     } else if (t == QID_T) {
             ASTNode const * symbolNode = (*(astNode.children->begin()));
-            char const * name = symbolNode->getValue();
-            std::cout << name;
+            printAstSymbol(*symbolNode);
     } else if ( t == LQID_T ) {
         // Multi-argument term
         auto node_iter = astNode.children->begin();
-        const char* name = (**node_iter).getValue(); node_iter++;
+        ASTNode const & headNode = **node_iter; node_iter++;
         std::cout << "(";
-        std::cout << name << " ";
+        printAstSymbol(headNode);
+        std::cout << " ";
         bool first = true;
         for (; node_iter != astNode.children->end(); node_iter++) {
             if (not first) {
